@@ -393,6 +393,46 @@ theorem history_forced_write_current (s : FS × MState) (ops : List HOp) (t : Ta
   simp only [hstep, hw]
   exact ⟨hget, insync_after_write _ _ _ _ _ hw⟩
 
+/-- **render then split = id** (row level): what `write_csv` writes for a row — the items joined
+    by commas — is split by the reader into exactly those items, for every row of non-empty
+    items free of white space and commas. -/
+theorem split_rendered_row (items : List Str) (hne : items ≠ [])
+    (hp : ∀ w ∈ items, w ≠ [] ∧ ∀ c ∈ w, isPlain c = true) :
+    lineItems (joinWith ',' items) = items ∧ specItems (joinWith ',' items) = items := by
+  have hchars := joinWith_chars items (fun w hw => (hp w hw).2)
+  have hnosp : ∀ c ∈ joinWith ',' items, c ≠ ' ' := by
+    intro c hc
+    rcases hchars c hc with h | h
+    · exact (plain_props c h).1
+    · rw [h]; decide
+  -- first and last character
+  obtain ⟨x, xs, hx⟩ := List.exists_cons_of_ne_nil hne
+  have hxx := hp x (by rw [hx]; simp)
+  obtain ⟨c0, cs0, hc0⟩ := List.exists_cons_of_ne_nil hxx.1
+  obtain ⟨t0, ht0⟩ := joinWith_head x xs c0 cs0 hc0
+  rw [← hx] at ht0
+  have hc0p := plain_props c0 (hxx.2 c0 (by rw [hc0]; simp))
+  obtain ⟨t, c, ht, hc⟩ := joinWith_last items hne hp
+  have hcp := plain_props c hc
+  have hstrip : spStrip (joinWith ',' items) = joinWith ',' items := by
+    unfold spStrip
+    rw [dropSp_of_no_space _ hnosp, dropSp_of_no_space _ (fun c hc => hnosp c (by simpa using hc))]
+    simp
+  have hedge : edgeOk (joinWith ',' items) = true := by
+    unfold edgeOk
+    simp only [hstrip]
+    have h1 : (match joinWith ',' items with | c :: _ => !isPyWs c | [] => true) = true := by
+      rw [ht0]; simp [hc0p.2.2]
+    have h2 : (match (joinWith ',' items).reverse with | c :: _ => !isPyWs c | [] => true) = true := by
+      rw [ht]; simp [hcp.2.2]
+    rw [Bool.and_eq_true]
+    exact ⟨h1, h2⟩
+  have hspec : specItems (joinWith ',' items) = items := by
+    unfold specItems
+    rw [tok_lead_eq_item _ (fun r e => hc0p.1 (by rw [ht0] at e; injection e with e1 _)), tok_join items hne hp]
+  exact ⟨by rw [split_matches_rules_aux _ (noSpTab_of_no_space _ hnosp) hedge, hspec], hspec⟩
+
+
 /-- the stale-file situation is real when the dataset is replaced with the datainfo kept and nothing is written -/
 theorem stale_without_write_witness :
     let f1 : Frame := ⟨[['A']], [[['1']]]⟩
